@@ -41,6 +41,25 @@ class Infra(Exception):
     """infrastructure failure -> exit 2"""
 
 
+def raised_by_impl(e):
+    """True when the exception came out of the code under verification (some frame of its traceback is
+    in REPO/modelx): then it is an observation about the implementation (to be reported as a failure
+    with the history that led to it), not a fault of the harness"""
+    root = os.path.join(os.path.realpath(REPO), "modelx") + os.sep
+    t = e.__traceback__
+    while t is not None:
+        if os.path.realpath(t.tb_frame.f_code.co_filename).startswith(root):
+            return True
+        t = t.tb_next
+    return False
+
+
+def impl_error_text(e):
+    """short deterministic text of an exception raised by the implementation (no addresses)"""
+    msg = re.sub(r"0x[0-9a-fA-F]+", "0x..", str(e)).replace("\n", " ")[:160]
+    return "%s: %s" % (type(e).__name__, msg)
+
+
 class Ctx:
     def __init__(self, prop, tier, seed):
         self.prop = prop
@@ -214,6 +233,48 @@ def run_driver(layer, lines, timeout=600):
             and sum(len(c[1]) for c in DRIVER_SAMPLE) + len(lines) <= DRIVER_SAMPLE_MAX_LINES):
         DRIVER_SAMPLE.append((layer, list(lines), list(out)))
     return out
+
+
+class DriverProc:
+    """one long-lived `mxdriver <layer>` process per layer for drivers that flush after every line (struct,
+    relative): a check that asks the model thousands of small questions does not pay a process start for each.
+    Every question starts with `reset`, so questions are independent of each other."""
+    procs = {}
+
+    @classmethod
+    def ask(cls, layer, lines):
+        USED_LAYERS.add(layer)
+        p = cls.procs.get(layer)
+        if p is None or p.poll() is not None:
+            if not os.path.exists(DRIVER):
+                raise Infra("driver not built: " + DRIVER)
+            p = subprocess.Popen([DRIVER, layer], stdin=subprocess.PIPE, stdout=subprocess.PIPE, text=True, bufsize=1)
+            cls.procs[layer] = p
+        out = []
+        for i in range(0, len(lines), 200):       # chunks smaller than the pipe buffers, answers read in between
+            chunk = lines[i:i + 200]
+            p.stdin.write("\n".join(chunk) + "\n")
+            p.stdin.flush()
+            for _ in chunk:
+                line = p.stdout.readline()
+                if not line:
+                    raise Infra("model driver %s died (rc=%s)" % (layer, p.poll()))
+                out.append(line.rstrip("\n"))
+        return out
+
+    @classmethod
+    def close(cls):
+        for p in cls.procs.values():
+            try:
+                p.stdin.close()
+                p.wait(timeout=5)
+            except Exception:
+                p.kill()
+        cls.procs = {}
+
+
+import atexit  # noqa: E402
+atexit.register(DriverProc.close)
 
 
 # --------------------------------------------------------------------------------------
